@@ -180,15 +180,18 @@ func NewHTTPClient(options ...HTTPClientOptionF) (*HTTPClient, error) {
 		log:                 log.L(),
 	}
 
-	// updates topology with redirect body
-	client.httpClient.CheckRedirect = newCheckRedirect(client)
-
 	// Run the options on the client
 	for _, option := range options {
 		if err := option(client); err != nil {
 			return nil, err
 		}
 	}
+
+	// updates topology with redirect body. It has to be installed on the
+	// http client actually in use: an http client given through the options
+	// (every client built from a Config) replaces the default one.
+	client.httpClient.CheckRedirect = newCheckRedirect(client)
+
 	// configure retrier
 	_ = client.setRetrier(client.maxRetries)
 
